@@ -245,10 +245,15 @@ class Urandom:
         self.drawn = 0
 
     def urandom(self, n):
-        k = self.keys[self.drawn]
+        if self.drawn < len(self.keys) and len(self.keys[self.drawn]) == n:
+            k = self.keys[self.drawn]
+        else:
+            k = os.urandom(n)
         self.drawn += 1
-        assert n == len(k)
         return k
+
+    def __getattr__(self, name):
+        return getattr(os, name)
 
 
 class ImplError(Exception):
@@ -278,8 +283,8 @@ class C17(Prop):
     id = 'C17'
     props_file = 'Props/C17.v'
     imports = ['Model.WebSocket', 'Model.WebSocketObs']
-    quick_n = 330
-    thorough_n = 6000
+    quick_n = 230
+    thorough_n = 3000
     rule = ('frame streams built by the harness\' own RFC 6455 encoder from 1-5 items (text/binary messages of length '
             '0..70001 around 125/126/65535/65536 and the 4096-byte read size, 1-4 fragments, ping/pong between fragments, '
             'close followed by more frames), masked with random keys or unmasked, cut into reads at every offset of the '
@@ -294,15 +299,19 @@ class C17(Prop):
                    'payload length < 2^64',
                    'the peer is conforming: control frames are unfragmented; a message starts with opcode 1/2 and continues with 0']
 
+    _want_big = False
+
     def __init__(self):
+        self._recorded = {}
         self.stats = {'kinds': {}, 'cut_modes': {}, 'payload_len_classes': {}, 'fragmented_msgs': 0,
                       'ctl_inside_fragmented': 0, 'cuts_in_header': 0}
 
     # ---- generator
     def _payload(self, rng, text, tier, allow_big=True):
         r = rng.random()
-        if allow_big and r < (0.015 if tier == 'quick' else 0.04):
+        if allow_big and self._want_big:
             n = rng.choice(BIG)
+            self._want_big = False
         elif allow_big and r < 0.07:
             n = rng.choice(MID)
         elif r < 0.6:
@@ -345,7 +354,7 @@ class C17(Prop):
                 p = self._payload(rng, text, tier, allow_big=bigs == 0)
                 n = len(p['pat']) * p['n'] + len(p['tail'])
                 bigs += n > 4000
-                nfr = 1 if rng.random() < 0.5 else rng.randint(2, 4)
+                nfr = 1 if rng.random() < (0.7 if n > 60000 else 0.5) else rng.randint(2, 4)
                 fcuts = sorted(rng.choice([0, n, rng.randint(0, n), rng.randint(0, n)]) for _ in range(nfr - 1))
                 ctls = [[self._ctl(rng, masked) for _ in range(rng.choice([0, 0, 0, 1, 1, 2]))] if nfr > 1 or rng.random() < 0.2 else []
                         for _ in range(nfr)]
@@ -407,6 +416,7 @@ class C17(Prop):
                 cases.append({'k': 'rfc', 'fin': rng.random() < 0.5, 'op': rng.choice([0, 1, 2, 8, 9, 10]),
                               'key': self._key(rng, rng.random() < 0.6), 'p': self._payload(rng, text, tier, allow_big=i % 3 == 0)})
                 continue
+            self._want_big = i % (40 if tier == 'quick' else 25) == 7     # payloads >= 65535: a fixed share of the cases
             cases.append(self.gen_case(rng, tier))
         for c in cases:
             self._count(c)
@@ -429,7 +439,17 @@ class C17(Prop):
             st['payload_len_classes'][cl] = st['payload_len_classes'].get(cl, 0) + 1
             hdr = 2 + (2 if 126 <= n <= 65535 else 8 if n > 65535 else 0) + (4 if key is not None else 0)
             st['cuts_in_header'] += sum(1 for x in c['cuts'] if s < x < s + hdr)
+        for a in c['app']:
+            if a[1] == 'send':
+                sp = a[3]
+                n = len(sp['pat']) * sp['n'] + len(sp['tail'])
+                cl = 'send 0' if n == 0 else 'send <=125' if n <= 125 else 'send <=65535' if n <= 65535 else 'send >65535'
+                st['payload_len_classes'][cl] = st['payload_len_classes'].get(cl, 0) + 1
+            else:
+                st['app_close'] = st.get('app_close', 0) + 1
         for it in c['items']:
+            if it['t'] == 'close':
+                st['peer_close'] = st.get('peer_close', 0) + 1
             if it['t'] == 'msg' and it['fcuts']:
                 st['fragmented_msgs'] += 1
                 st['ctl_inside_fragmented'] += sum(len(x) for x in it['ctls'][:-1])
@@ -454,7 +474,7 @@ class C17(Prop):
             else:
                 codec = WebSocketCodec(sock, channel='ws').register(p)
                 drain(p)
-            outs = []
+            outs, used = [], []
             for op in ops:
                 if op[0] != 'init':
                     p.cur = {'d': [], 'w': [], 'c': 0}
@@ -485,6 +505,13 @@ class C17(Prop):
                     if s is not sock:
                         raise ImplError('frame written to the wrong socket %r' % (s,))
                 outs.append({'d': d, 'w': [hexs(b) for (_, b) in p.cur['w']], 'c': p.cur['c']})
+                for (_, b) in p.cur['w']:
+                    # the masking key the implementation actually drew for this frame (the model's key oracle is
+                    # this table, so the check does not depend on *how* the code obtains its random bytes)
+                    if len(b) >= 2 and b[1] & 0x80:
+                        off = 2 + {126: 2, 127: 8}.get(b[1] & 0x7F, 0)
+                        used.append(list(b[off:off + 4]))
+            self._recorded[id(c)] = (c, used)
             return {'outs': outs, 'drawn': ur.drawn}
         finally:
             ws_mod.os = saved
@@ -512,7 +539,9 @@ class C17(Prop):
             else:
                 groups.append('[Close]')
         flush_single()
-        keys = '[%s]' % '; '.join(nlist(k) for k in c['keys'])
+        rec = self._recorded.get(id(c))
+        keylist = rec[1] if rec is not None and rec[0] is c else c['keys']
+        keys = '[%s]' % '; '.join(nlist(k) for k in keylist)
         return 'obs_ws %s %s (%s)' % ('true' if c['mode'] == 'client' else 'false', keys, ' ++ '.join(groups) if groups else '[]')
 
     def obs_for_model(self, c, obs):
@@ -634,7 +663,7 @@ class C17(Prop):
 
 # smaller shards than the framework default: the cases files evaluate in parallel
 _orig_mismatches = common.coq_mismatches
-common.coq_mismatches = lambda pid, imports, pairs, shard=42: _orig_mismatches(pid, imports, pairs, shard=shard)
+common.coq_mismatches = lambda pid, imports, pairs, shard=70: _orig_mismatches(pid, imports, pairs, shard=shard)
 
 
 if __name__ == '__main__':
